@@ -173,7 +173,15 @@ class Scenario:
         """a - b = sum_k c_k log(w_k) + rest with constant c_k: valid iff rest = 0 and prod_k w_k^(c_k) = 1.
         (log-determinants reached through different factorizations: compared as determinants, DESIGN C15)"""
         from .core import subst as _s
-        logs = CTX.fun.get("log", [])
+        from .core import _occurs
+        allargs = []
+        for fname, tab in CTX.fun.items():
+            for arg, res in tab:
+                for x in (arg if isinstance(arg, tuple) else (arg,)):
+                    allargs.extend([x.n, x.d])
+        # only log atoms that are used as plain additive terms (not nested inside another atom's argument, e.g. the
+        # softplus of a raw noise parameter) take part in the normalisation; the others stay opaque variables
+        logs = [(w, r) for (w, r) in CTX.fun.get("log", []) if not any(_occurs(r.n, t) for t in allargs)]
         if not logs:
             return False
         D = a - b
@@ -182,9 +190,10 @@ class Scenario:
             return Sym(z3.substitute(t.n, *pairs), z3.substitute(t.d, *pairs), 0.0)
         rest = sub(D, pairs0)
         if CTX.check(eq_formula(rest, Sym.const(0.0)), self.qtimeout)[0] != "unsat":
+            self.notes.append("log-linear: non-log remainder is not identically zero")
             return False
-        num, den = Sym.const(1.0), Sym.const(1.0)
         lin = Sym.const(0.0)
+        coefs = []
         for k, (w, r) in enumerate(logs):
             pairs = [(rr.n, z3.RealVal(1 if j == k else 0)) for j, (_, rr) in enumerate(logs)]
             ck = sub(D, pairs) - rest
@@ -195,18 +204,27 @@ class Scenario:
                 cc = ev.cev(ck.n) / ev.cev(ck.d)
             except Exception:
                 return False
-            f = Fraction(cc).limit_denominator(4)
+            f = Fraction(cc).limit_denominator(24)
             if abs(float(f) - cc) > 1e-9:
+                self.notes.append("log-linear: coefficient %r of a log atom is not a small rational" % cc)
                 return False
             # the coefficient of this log atom is the constant f (solver-validated)
             if CTX.check(eq_formula(ck, Sym.const(f)), self.qtimeout)[0] != "unsat":
                 return False
             if f == 0:
                 continue
-            if f.denominator not in (1, 2):
-                return False
-            e = int(f * 2)  # exponents doubled so that halves are allowed
             lin = lin + r * Sym.const(f)
+            coefs.append((w, f))
+        import math as _m
+        Lc = 1
+        for _, f in coefs:
+            Lc = Lc * f.denominator // _m.gcd(Lc, f.denominator)
+        num, den = Sym.const(1.0), Sym.const(1.0)
+        for w, f in coefs:
+            e = int(f * Lc)
+            if abs(e) > 12:
+                self.notes.append("log-linear: exponent %d too large" % e)
+                return False
             if e > 0:
                 num = num * (w ** e)
             else:
